@@ -12,13 +12,15 @@ def run(ctx):
     n, ncfg = (4, 2) if q else (6, 6)
     ts = []
     cells = [(0, 0), (0, 1), (1, 0), (1, 1)]
-    for _ in range(ncfg):
+    for j in range(ncfg + 1):
         p = D.params(rng, small=True)
+        if j == ncfg:      # the corner: no burn-in, a fast-forgetting statistic and a wide warning zone - warnings from the very first sample (index 0) on
+            p.update(eta=0.1, wl=0.5, dl=rng.choice([0.01, 0.05]), burn=0, sub=1, tracked=sorted(D.RATES))
         p["num_mc"] = 100
         seed = rng.randrange(10 ** 6)
         for seq in itertools.product(cells, repeat=n):
             ts.append(D.run(p, list(seq), seed))
-    ctx.validate("LFR", ts, "all 4^%d cell sequences x %d configurations" % (n, ncfg), sabotage=D.sabotage, replay=rep(ts),
+    ctx.validate("LFR", ts, "all 4^%d cell sequences x %d configurations" % (n, ncfg + 1), sabotage=D.sabotage, replay=rep(ts),
                  nontrivial=lambda t: len({tuple(e["rstat"]) for e in t["ev"]}) >= 3)
     # regime-changing streams
     n2, ln = (14, 120) if q else (120, 300)
